@@ -39,7 +39,7 @@ def sprintParts (depth : Nat) : List PathPart → Bytes
   | [] => []
   | p :: ps => sprintPart depth p ++ sprintParts depth ps
 def sprintPart (depth : Nat) : PathPart → Bytes
-  | .ident name _ _ => [46] ++ name
+  | .ident name prop _ => [46] ++ name ++ (if prop then [63] else [])
   | .filter lo _ => sprintLogic depth lo
   | .func _ name params _ => [46] ++ name ++ [40] ++ joinB [44] (params.map Param.toBytes) ++ [41]
 def sprintLogic (depth : Nat) : LogicOp → Bytes
